@@ -124,6 +124,7 @@ class C05(runner.Check):
         add("pcovr-equiv", k=1, reg="krr", cost=5)
         add("pcovr-equiv", k=2, reg="krr", V="R513", cost=8, remainder=True)
         add("precomputed-equiv", k=1, kernel="linear", cost=5)
+        # (mode "caller-kernel" - a caller-supplied precomputed kernel comes back unchanged from fit - is run by C09 through this harness)
         add("center-equiv", k=1, center=True, cost=8)
         add("regressors", k=1, cost=5)
         add("refit-center", k=1, center=True, reg="precomputed", cost=10)  # history: fit with center=True, set_params(center=False), fit again
@@ -195,8 +196,17 @@ class C05(runner.Check):
         hv = cfg["hv"]
         Xv = arrays.symbols("v", (hv, m))
         Yv = arrays.symbols("w", (hv, p))
-        est = self._kp(cfg, a, alpha)
         Yfit = fam["Yin"] if cfg["reg"] == "precomputed" else Y
+        if mode == "caller-kernel":
+            # the caller's precomputed kernel (here the linear kernel of the family) must come back from fit unchanged, also with centring
+            # (the family is centred, so a constant offset c0 * 1 1^T makes the centring step a real change of the matrix)
+            KNN = X @ X.T + arrays.ones((n, n)) * c.sym("koff", positive=True)
+            K0 = np.array(KNN, dtype=object).copy()
+            ep = self._kp(cfg, a, alpha)
+            ep.fit(KNN, Yfit)
+            P.require_all(sc.arr_eq(KNN, K0), "caller-supplied-kernel-unchanged-by-fit")
+            return {"k": k}
+        est = self._kp(cfg, a, alpha)
         est.fit(X, Yfit)
 
         def K_of(A, B=None):
@@ -251,7 +261,9 @@ class C05(runner.Check):
             # a regressor must carry the same kernel parameters as the estimator
             ep.gamma, ep.degree, ep.coef0 = None, 3, 1
             ep.regressor.gamma, ep.regressor.degree, ep.regressor.coef0 = None, 3, 1
+            K0 = np.array(KNN, dtype=object).copy()
             ep.fit(KNN, Yfit)
+            P.require_all(sc.arr_eq(KNN, K0), "caller-supplied-kernel-unchanged-by-fit")
             P.require_all(cols_equal_up_to_sign(est.transform(Xv), ep.transform(KVN)) + sc.arr_eq(est.predict(Xv), ep.predict(KVN)), "named-kernel==same-kernel-precomputed")
             P.require(core.cross_eq(est.score(X, Yfit), ep.score(KNN, Yfit)), "named-kernel==same-kernel-precomputed:score(train)")
             return {"k": k}
@@ -318,9 +330,16 @@ class C05(runner.Check):
 
         with warnings.catch_warnings():
             warnings.simplefilter("ignore")
+            mode = cfg["mode"]
+            if mode == "caller-kernel":
+                KNN = X @ X.T + abs(float(values.get("koff", 1.5)))
+                K0 = KNN.copy()
+                self._kp(cfg, a, alpha, sym=False).fit(KNN, Yfit)
+                if not np.array_equal(KNN, K0):
+                    viol.append(("caller-supplied-kernel-unchanged-by-fit", float(np.abs(KNN - K0).max())))
+                return {"k": k}, viol
             est = self._kp(cfg, a, alpha, sym=False)
             est.fit(X, Yfit)
-            mode = cfg["mode"]
             if mode == "score":
                 try:
                     Tv, Yp, sv = est.transform(Xv), est.predict(Xv), est.score(Xv, Yv)
@@ -333,6 +352,18 @@ class C05(runner.Check):
                 lr = np.linalg.norm(Yv - Yp) ** 2 / np.linalg.norm(Yv) ** 2
                 if abs(sv + lk + lr) > 1e-6 * max(1.0, abs(lk + lr)):
                     viol.append(("score==-(documented kernel loss + relative regression loss)", {"score": float(sv), "documented": float(-(lk + lr))}))
+            elif mode == "precomputed-equiv":
+                from sklearn.kernel_ridge import KernelRidge
+
+                KNN, KVN = K_of(X, X), K_of(Xv, X)
+                K0 = KNN.copy()
+                ep = self._kp(cfg, a, alpha, kernel="precomputed", regressor=KernelRidge(alpha=alpha, kernel="precomputed"), sym=False)
+                ep.gamma, ep.degree, ep.coef0 = None, 3, 1
+                ep.fit(KNN, Yfit)
+                if not np.array_equal(KNN, K0):
+                    viol.append(("caller-supplied-kernel-unchanged-by-fit", float(np.abs(KNN - K0).max())))
+                if not sclose(est.transform(Xv), ep.transform(KVN)) or not close(est.predict(Xv), ep.predict(KVN)):
+                    viol.append(("named-kernel==same-kernel-precomputed", None))
             elif mode == "refit-center":
                 est.set_params(center=False)
                 est.fit(X, Yfit)
